@@ -85,6 +85,9 @@ class Func:
         self.virtual = bool(node.get('virtual'))
         self.pure = bool(node.get('pure'))
         self.sig = node.get('type', {}).get('qualType', '')
+        m = re.match(r'^auto \((.*)\)((?: const| noexcept| mutable)*) -> (.*)$', self.sig)
+        if m:      # trailing return type
+            self.sig = '%s (%s)%s' % (m.group(3), m.group(1), m.group(2))
         self.is_const = bool(re.search(r'\)\s*const', self.sig))
         self.cname = None
         self.body_node = None
@@ -420,4 +423,4 @@ class Lowerer:
         return self.te.c(t, decl)
 
     def ext_record_cname(self, t):
-        return sanitize(t.name)
+        return self.te.record_cname(t.name)
